@@ -16,6 +16,7 @@ use anchor_lang::prelude::*;
 pub const FEE_RATE_HARD_LIMIT: u32 = 100_000; // 10%
 
 #[derive(Debug)]
+#[cfg_attr(feature = "verif", repr(u8))]
 pub enum FeeRateManager {
     Adaptive {
         a_to_b: bool,
